@@ -10,7 +10,10 @@ CHECKS["C16"] = dict(
           "(per block: view gap, proposer, ordered signer list of size >= quorum; first block carries the unsigned genesis "
           "certificate), n 1..64, chain length parameter 1..4, seed, base view (0, just below 2^32 / 2^63, random), signature "
           "scheme (ecdsa/eddsa = ordered multi-signature, bls12 = bitfield), and an op list (advance committed head by 1..3 "
-          "blocks | GetLeader(head view + chain length + rel) | GetLeader(any uint64)). Three independent replicas (own config, "
+          "blocks, each commit followed by the store's PruneToHeight as consensus.Committer does (chains that start at a small view) | "
+          "GetLeader(head view + chain length + rel) | GetLeader(any uint64)). The first block's genesis certificate may carry a junk "
+          "signature object (none / no participants / arbitrary members / an unknown id); such chains belong to the domain only if "
+          "certificate verification accepts that block (after repair 31 it does not). Three independent replicas (own config, "
           "store, view states; one holds the proposer's block objects, two hold copies decoded from the protobuf wire format, one "
           "of those asks every question twice) must answer identically; carousel: active (signed head certificate and view == "
           "head view + chain length) => answer in signers(head certificate) minus proposers(last f committed blocks), else "
